@@ -5,6 +5,7 @@
 From Lal Require Import Common.LBytes Common.Res Media.MediaMsgChecked Media.MediaMsgProofs Media.MediaDummyAudio Media.MediaDummyProofs
   Media.MediaTsRemux Media.MediaTsProofs Media.MediaRtspRemux Media.MediaRtspProofs Media.MediaBroadcast
   Rtmp.RtmpAmf0 Rtmp.RtmpMetadata Rtmp.RtmpMetadataProofs.
+From Lal Require Net.NetChk Net.NetChkProofs Net.NetRtpHeader Net.NetRtpHeaderProofs.
 From Coq Require Import Lia ZifyN ZifyNat ZifyBool.
 Open Scope N_scope.
 
@@ -16,7 +17,68 @@ Definition stat_safe (rf : rec_fns) (sf : sps_fns) (m : mmsg) : Prop :=
   (forall v sps q, rf_hevc_parse_enh rf (mm_pay m) = Ok (v, sps, q) -> is_ok (sf_hevc_dims sf sps)).
 
 Definition fx_all_ok (fx : fixes) : Prop :=
-  fx_msg_ok fx /\ fx_tsidx fx = true /\ fx_rtspidx fx = true /\ fx_dummy fx = true.
+  fx_msg_ok fx /\ fx_tsidx fx = true /\ fx_rtspidx fx = true /\ fx_dummy fx = true /\ fx_bound fx = true.
+
+(* Group.feedRtpPacket with the fixed boundary classifiers is total *)
+Lemma avc_boundary_total b : is_ok (NetRtpHeader.is_avc_boundary true b).
+Proof.
+  unfold NetRtpHeader.is_avc_boundary. cbn [andb]. pose (ok := fun (x : bool) => ex_intro (fun a => Ok x = Ok a) x eq_refl).
+  destruct (lenN b <? 1) eqn:E1; [apply ok|]. apply N.ltb_ge in E1.
+  destruct (NetChkProofs.idx_ok NetChk.s_avcbound_index b 0) as [b0 ->]; [lia|]. cbn [bind].
+  destruct (NetRtpHeader.avc_boundary_type (b0 mod 32)); [apply ok|].
+  destruct (b0 mod 32 =? 24).
+  - destruct (lenN b <? 4) eqn:E4; cbn [bind].
+    + destruct (b0 mod 32 =? 28); [|apply ok].
+      destruct (lenN b <? 2) eqn:E2; [apply ok|]. apply N.ltb_ge in E2.
+      destruct (NetChkProofs.idx_ok NetChk.s_avcbound_index b 1) as [b1 ->]; [lia|]. apply ok.
+    + apply N.ltb_ge in E4. destruct (NetChkProofs.idx_ok NetChk.s_avcbound_index b 3) as [b3 ->]; [lia|]. cbn [bind].
+      destruct (NetRtpHeader.avc_boundary_type (b3 mod 32)); [apply ok|].
+      destruct (b0 mod 32 =? 28); [|apply ok].
+      destruct (lenN b <? 2) eqn:E2; [apply ok|]. apply N.ltb_ge in E2.
+      destruct (NetChkProofs.idx_ok NetChk.s_avcbound_index b 1) as [b1 ->]; [lia|]. apply ok.
+  - cbn [bind]. destruct (b0 mod 32 =? 28); [|apply ok].
+    destruct (lenN b <? 2) eqn:E2; [apply ok|]. apply N.ltb_ge in E2.
+    destruct (NetChkProofs.idx_ok NetChk.s_avcbound_index b 1) as [b1 ->]; [lia|]. apply ok.
+Qed.
+
+Lemma hevc_boundary_total b : is_ok (NetRtpHeader.is_hevc_boundary true b).
+Proof.
+  unfold NetRtpHeader.is_hevc_boundary. cbn [andb]. pose (ok := fun (x : bool) => ex_intro (fun a => Ok x = Ok a) x eq_refl).
+  destruct (lenN b <? 1) eqn:E1; [apply ok|]. apply N.ltb_ge in E1.
+  destruct (NetChkProofs.idx_ok NetChk.s_hevcbound_index b 0) as [b0 ->]; [lia|]. cbn [bind].
+  destruct (NetRtpHeader.hevc_boundary_type _); [apply ok|].
+  destruct (_ =? 49); [|apply ok].
+  destruct (lenN b <? 3) eqn:E3; [apply ok|]. apply N.ltb_ge in E3.
+  destruct (NetChkProofs.idx_ok NetChk.s_hevcbound_index b 2) as [b2 ->]; [lia|]. apply ok.
+Qed.
+
+Lemma rtp_boundary_ok fx kind body : fx_bound fx = true -> is_ok (rtp_boundary fx kind body).
+Proof.
+  intro F. unfold rtp_boundary. rewrite F. destruct (kind =? 1).
+  - destruct (avc_boundary_total body) as [v ->]. eexists; reflexivity.
+  - destruct (kind =? 2); [|eexists; reflexivity]. destruct (hevc_boundary_total body) as [v ->]. eexists; reflexivity.
+Qed.
+
+Lemma feed_rtp_ok fx wk sdp subs body : fx_bound fx = true -> is_ok (feed_rtp fx wk sdp subs body).
+Proof.
+  intro F. unfold feed_rtp. destruct (negb wk); [eexists; reflexivity|].
+  destruct (existsb _ subs); [|eexists; reflexivity].
+  destruct sdp as [[v k]|]; [|eexists; reflexivity].
+  destruct (rtp_boundary_ok fx k body F) as [b ->]. eexists; reflexivity.
+Qed.
+
+Lemma feed_rtp_all_ok fx wk sdp l : forall subs, fx_bound fx = true -> is_ok (feed_rtp_all fx wk sdp subs l).
+Proof.
+  induction l as [|b t IH]; intros subs F; cbn [feed_rtp_all]; [eexists; reflexivity|].
+  destruct (feed_rtp_ok fx wk sdp subs b F) as [s' ->]. cbn [bind]. apply IH. exact F.
+Qed.
+
+Lemma rtsp_events_ok fx wk evs : forall sdp subs, fx_bound fx = true -> is_ok (rtsp_events fx wk sdp subs evs).
+Proof.
+  induction evs as [|e t IH]; intros sdp subs F; cbn [rtsp_events]; [eexists; reflexivity|].
+  destruct e as [v k|l]; [apply IH; exact F|].
+  destruct (feed_rtp_all_ok fx wk sdp l subs F) as [s' ->]. cbn [bind]. apply IH. exact F.
+Qed.
 
 Section Bc.
 Variable fx : fixes.
@@ -119,11 +181,13 @@ Proof.
 Qed.
 
 Lemma bc_rtsp_ok g m : rtsp_inv (g_rtsp g) ->
-  exists r, bc_rtsp fx rf acfg c g m = Ok r /\ rtsp_inv r.
+  exists r x, bc_rtsp fx rf acfg c g m = Ok (r, x) /\ rtsp_inv r.
 Proof.
-  intros Hi. unfold bc_rtsp. destruct (gc_rtsp c); [|exists (g_rtsp g); split; [reflexivity|exact Hi]].
-  pose proof FX as (_ & _ & FR & _). rewrite ADD.
-  destruct (rtsp_feed_ok fx rf acfg FM FR RF (g_rtsp g) m Hi) as (r & ev & -> & Hr). cbn [bind]. exists r. split; [reflexivity|exact Hr].
+  intros Hi. unfold bc_rtsp. destruct (gc_rtsp c); [|do 2 eexists; split; [reflexivity|exact Hi]].
+  pose proof FX as (_ & _ & FR & _ & FB). rewrite ADD.
+  destruct (rtsp_feed_ok fx rf acfg FM FR RF (g_rtsp g) m Hi) as (r & ev & -> & Hr). cbn [bind].
+  destruct (rtsp_events_ok fx (gc_rtsp_wait c) ev (g_sdp g) (g_rsubs g) FB) as [x ->]. cbn [bind].
+  do 2 eexists. split; [reflexivity|exact Hr].
 Qed.
 
 Lemma broadcast_ok g m :
@@ -135,7 +199,7 @@ Proof.
   { do 2 eexists. split; [reflexivity|]. split; [repeat split; assumption|reflexivity]. }
   assert (Hne : nonempty m) by (unfold nonempty; rewrite Ep; cbn [length]; lia).
   destruct (bc_ts_ok g m Hts Hne) as (t & -> & Ht). cbn [bind].
-  destruct (bc_rtsp_ok g m Hrt) as (r & -> & Hr). cbn [bind].
+  destruct (bc_rtsp_ok g m Hrt) as (r & [sdp' rsubs'] & -> & Hr). cbn [bind].
   destruct (subs_step_ok (g_rtmp_hasgop g) m (g_rtmp_subs g)) as (rs & -> & _). cbn [bind].
   destruct (subs_step_ok (g_flv_hasgop g) m (g_flv_subs g)) as (fs & -> & _). cbn [bind].
   assert (Hrg : is_ok (bc_rgop fx c g m)) by (unfold bc_rgop; destruct (gc_rtmp c); [apply gop_feed_ok|eexists; reflexivity]).
@@ -167,7 +231,7 @@ Lemma on_read_ok g m :
 Proof.
   intros Hi Hs Hts. unfold on_read. destruct (gc_dummy c) as [wait|].
   - destruct Hi as (Hi1 & Hi2 & Hi3 & Hi4).
-    pose proof FX as ((F1 & F2 & _) & _ & _ & FD).
+    pose proof FX as ((F1 & F2 & _) & _ & _ & FD & _).
     destruct (dummy_feed_ok (stat_safe rf sf) (fun ts => proj1 (GEN ts)) (fun ts => proj2 (GEN ts)) fx F1 F2 FD wait (g_dummy g) m Hi3 Hi4 Hts Hs)
       as (outs & d' & -> & Ho & _ & Hd1 & Hd2).
     cbn [bind].
@@ -180,12 +244,17 @@ Qed.
 Definition ev_ok (e : gev) : Prop :=
   match e with GPub m => stat_safe rf sf m /\ ts_ok m | _ => True end.
 
+Lemma ginv_try_play g : ginv g -> ginv (try_play g).
+Proof. intro H. unfold try_play. destruct (g_sdp g) as [[[|] k]|]; exact H. Qed.
+
 Lemma gstep_ok g e : ginv g -> ev_ok e -> exists g' k, gstep fx cf rf sf acfg c g e = Ok (g', k) /\ ginv g'.
 Proof.
-  intros Hi He. destruct e as [m| | |]; cbn [gstep].
-  - destruct He as [Hs Hts]. exact (on_read_ok g m Hi Hs Hts).
+  intros Hi He. destruct e as [m| | | |]; cbn [gstep].
+  - destruct He as [Hs Hts]. destruct (on_read_ok g m Hi Hs Hts) as (g' & k & -> & Hi'). cbn [bind].
+    do 2 eexists. split; [reflexivity|apply ginv_try_play; exact Hi'].
   - do 2 eexists. split; [reflexivity|]. destruct Hi as (H1 & H2 & H3 & H4). repeat split; assumption.
   - do 2 eexists. split; [reflexivity|]. destruct Hi as (H1 & H2 & H3 & H4). repeat split; assumption.
+  - do 2 eexists. split; [reflexivity|]. apply ginv_try_play. destruct Hi as (H1 & H2 & H3 & H4). repeat split; assumption.
   - do 2 eexists. split; [reflexivity|exact Hi].
 Qed.
 
